@@ -1,11 +1,14 @@
 #!/bin/sh
 # usage: tools/validate_seed.sh <worktree>  -- confirm a sub-agent's seeded change: baseline passes with it, demo fails with it and passes without
+# (no `git stash`: the stash is shared by all worktrees of a repository, so concurrent users would swap changes)
 WT=$1
 cd $WT || exit 2
-git diff > /tmp/vf_seed.diff
+P=$(mktemp /tmp/vf_seed.XXXXXX.diff)
+git diff > $P; cp $P /tmp/vf_seed.diff
 echo "--- diff stat"; git diff --stat | tail -3
 echo "--- baseline with change"; /venv/bin/python /verif/tools/baseline.py $WT | tail -2
 echo "--- demo with change"; PYTHONPATH=$WT/src timeout 300 /venv/bin/python demo_test.py > /tmp/vf_demo_with.log 2>&1; echo "rc=$? $(tail -2 /tmp/vf_demo_with.log | cut -c1-200)"
-git stash -q
+git apply -R $P || { echo "cannot reverse patch"; exit 2; }
 echo "--- demo without change"; PYTHONPATH=$WT/src timeout 300 /venv/bin/python demo_test.py > /tmp/vf_demo_without.log 2>&1; echo "rc=$? $(tail -1 /tmp/vf_demo_without.log | cut -c1-200)"
-git stash pop -q
+git apply $P || { echo "cannot re-apply patch"; exit 2; }
+rm -f $P
